@@ -69,6 +69,8 @@ def check(tier, seed):
         C.tie_b_helpers(res, wd)
         C.tie_b_gnss(res, wd)
         C.tie_b_lever(res, wd)
+        from .. import primcheck
+        primcheck.run(res, wd)
         rng = C.rng_for(seed, 'C17')
         mt = R.message_table()
         GN = mt['UbxCfgGnss']['cls']
